@@ -20,10 +20,34 @@ def contiguous(idx):
     return idx.closed is not None and not is_sym(idx.closed[1]) and idx.closed[1] == 1
 
 
+@lib("pandas.concat")
+def pd_concat(I, args, kwargs):
+    items = I.iter_concrete(args[0])
+    axis = kwargs.get("axis", 0)
+    if any(isinstance(p, Opaque) for p in items):
+        o = Opaque("concat", prov=("concat", axis, list(items)))
+
+        def agg(name):
+            def f(I2, recv, a, kw):
+                return Opaque(f"rowwise-{name}", prov=("rowwise", name, kw.get("axis", a[0] if a else 0), list(items)))
+            return f
+        o.opaque_methods = {n: agg(n) for n in ("mean", "median", "min", "max")}
+        return o
+    if axis == 0 and all(isinstance(p, SSeries) for p in items):
+        out = items[0]
+        for p in items[1:]:
+            out = s_append(I, out, [p], {})
+        return out
+    raise Undecided("pd.concat")
+
+
 @lib("pandas.Series")
 def pd_series(I, args, kwargs):
     data = arg(args, kwargs, 0, "data")
     index = arg(args, kwargs, 1, "index")
+    if isinstance(data, Opaque):
+        o = Opaque("Series(opaque values)", prov=("series", data, index))
+        return o
     if isinstance(data, SSeries):
         if index is None:
             return SSeries(data.index, data.values, kwargs.get("name", data.name))
